@@ -458,6 +458,21 @@ pub fn directed_cases(tier: Tier) -> Vec<CaseRaw> {
         }
     }
     v.push(CaseRaw { args: sel("(base63_decode \"8J+Ygw==\")".into()), input: "null".into() });
+    // 4b. every pair of boundary numbers in every binary numeric function
+    let bn = ["0", "-1", "1", "2", "-9223372036854775808", "9223372036854775807", "18446744073709551615", "9007199254740992", "-0.0", "0.5", "-2.5", "1e308", "-1e308", "5e-324", "1e-320"];
+    for a in bn {
+        for b in bn {
+            for f in ["+", "-", "*", "/", "%", "=", "<", ">="] {
+                v.push(CaseRaw { args: sel(format!("({} {} {})", f, a, b)), input: "null".into() });
+            }
+            v.push(CaseRaw { args: sel(format!("(% . {})", b)), input: a.into() });
+            v.push(CaseRaw { args: sel(format!("(sum [{}, {}])", a, b)), input: "null".into() });
+        }
+        for f in ["abs", "round", "ceil", "floor", "-", "stringify", "range", "format_time"] {
+            let e = if f == "format_time" { format!("(format_time {} \"%s %Y\")", a) } else if f == "range" && a.len() > 2 { continue } else { format!("({} {})", f, a) };
+            v.push(CaseRaw { args: sel(e), input: "null".into() });
+        }
+    }
     // 5. nesting up to 64 in expressions and inputs
     for depth in [1usize, 8, 32, 63, 64] {
         let open: String = "[".repeat(depth);
@@ -478,7 +493,73 @@ pub fn directed_cases(tier: Tier) -> Vec<CaseRaw> {
     v
 }
 
+/// byte-level directed inputs: an invalid byte after a string prefix of every length 0..40 that
+/// starts or ends with a 2-, 3- or 4-byte character (error paths that quote or measure the
+/// surrounding text), truncated UTF-8 sequences at every position, under every policy
+pub fn directed_bytes() -> Vec<CaseBytes> {
+    let mut v = Vec::new();
+    let chars: [&[u8]; 3] = ["\u{e9}".as_bytes(), "\u{65e5}".as_bytes(), "\u{1f603}".as_bytes()];
+    let bad: [&[u8]; 5] = [b"\xff", b"\xc3", b"\xe2\x82", b"\xf0\x9f\x98", b"\x80"];
+    for pad in 0..40usize {
+        for ch in chars {
+            for b in bad {
+                for (k, layout) in [0u8, 1, 2, 3].iter().enumerate() {
+                    let mut inp: Vec<u8> = Vec::new();
+                    match layout {
+                        0 => {
+                            // "<ch><pad ascii><bad>"
+                            inp.push(b'"');
+                            inp.extend_from_slice(ch);
+                            inp.extend(std::iter::repeat(b'a').take(pad));
+                            inp.extend_from_slice(b);
+                            inp.push(b'"');
+                        }
+                        1 => {
+                            // "<pad ascii><ch><bad>" inside an object key
+                            inp.extend_from_slice(b"{\"");
+                            inp.extend(std::iter::repeat(b'k').take(pad));
+                            inp.extend_from_slice(ch);
+                            inp.extend_from_slice(b);
+                            inp.extend_from_slice(b"\":1}");
+                        }
+                        2 => {
+                            // garbage outside a string, then a value
+                            inp.extend(std::iter::repeat(b' ').take(pad % 5));
+                            inp.extend_from_slice(ch);
+                            inp.extend_from_slice(b);
+                            inp.extend_from_slice(b" 7");
+                        }
+                        _ => {
+                            // unterminated string ending in the bad byte at end of input
+                            inp.extend_from_slice(b"[1,\"");
+                            inp.extend(std::iter::repeat(b'z').take(pad));
+                            inp.extend_from_slice(ch);
+                            inp.extend_from_slice(b);
+                        }
+                    }
+                    inp.extend_from_slice(b" 2\n");
+                    v.push(CaseBytes { input: BytesS(inp), policy: ((pad + k) % 4) as u8, pipeline: 0 });
+                }
+            }
+        }
+    }
+    v
+}
+
 pub fn run_directed(ctx: &mut Ctx) {
+    {
+        let cases = std::sync::Arc::new(directed_bytes());
+        let total = cases.len() as u64 * 4;
+        let c2 = cases.clone();
+        run_enum(ctx, "C05.bytes", total, "directed byte inputs (invalid byte after string prefixes of every length with multi-byte characters, truncated sequences) x 4 policies", move |idx| {
+            let mut c = c2[(idx / 4) as usize].clone();
+            c.policy = (idx % 4) as u8;
+            slot_set((idx % SHARDS as u64) as usize, "C05", "C05.bytes", &serde_json::to_string(&c).unwrap());
+            let r = C05Bytes.check(&c);
+            slot_idle((idx % SHARDS as u64) as usize);
+            (Box::new(move || vjson(&c)), r)
+        });
+    }
     let cases = directed_cases(ctx.tier);
     let total = cases.len() as u64;
     let cases = std::sync::Arc::new(cases);
